@@ -22,7 +22,7 @@ BUILTIN = {
     'int8_t': 'int8_t', 'int16_t': 'int16_t', 'int32_t': 'int32_t', 'int64_t': 'int64_t',
     'std::streamsize': 'long', 'in_port_t': 'uint16_t', 'std::uint8_t': 'uint8_t', 'std::uint16_t': 'uint16_t',
     'std::uint32_t': 'uint32_t', 'std::uint64_t': 'uint64_t', 'std::int64_t': 'int64_t', 'std::int32_t': 'int32_t',
-    'off_t': 'long', 'nullptr_t': 'void *', 'std::nullptr_t': 'void *', 'time_t': 'long', 'std::time_t': 'long',
+    'off_t': 'long', 'std::string::size_type': 'size_t', 'size_type': 'size_t', 'std::streamsize': 'long', 'nullptr_t': 'void *', 'std::nullptr_t': 'void *', 'time_t': 'long', 'std::time_t': 'long',
 }
 
 TYPE_NORMALISE = [
@@ -101,23 +101,24 @@ class Lower:
         else:
             cands = [T]
         err = None
-        for c in cands:
-            try:
-                return self._ctype(c)
-            except Abort as e:
-                err = err or e
+        for allow in (False, True):
+            for c in cands:
+                try:
+                    return self._ctype(c, allow)
+                except Abort as e:
+                    err = err or e
         raise err
 
-    def _ctype(self, qt):
+    def _ctype(self, qt, allow_opaque=True):
         t = norm_type(qt)
         if t in self.typemap:
             return self.typemap[t]
         m = re.match(r'^(.*?)\s*(\*|&&|&)$', t)
         if m:
-            return self._ctype(m.group(1)) + ' *'
+            return self._ctype(m.group(1), allow_opaque) + ' *'
         m = re.match(r'^(.*)\[(\d*)\]$', t)
         if m:
-            return self._ctype(m.group(1)) + ' *'
+            return self._ctype(m.group(1), allow_opaque) + ' *'
         if t in BUILTIN:
             return BUILTIN[t]
         if t.startswith('(lambda at'):
@@ -128,7 +129,7 @@ class Lower:
         e = self.find_enum(t)
         if e:
             return e
-        if t in self.opaque or (getattr(self.u, 'OPAQUE_UNKNOWN', False) and ('std::' in t or '<' in t)):
+        if allow_opaque and (t in self.opaque or (getattr(self.u, 'OPAQUE_UNKNOWN', False) and ('std::' in t or '<' in t))):
             self.assumptions.add('opaque library type: %s' % t)
             return 'struct vs_opaque'
         raise Abort('no C type for C++ type %r' % qt)
@@ -608,7 +609,12 @@ class Lower:
         return call
 
     def ghost_for(self, callee):
-        return [g for g in self.ghost.get(self.cur_fn, []) if g[1] == callee] if isinstance(self.ghost.get(self.cur_fn), list) else []
+        out = []
+        for g in self.cur_spec.get('ghost', []):
+            if g[0] == callee:
+                self.ghost_used.add(g)
+                out.append((self.cur_fn, g[0], g[1], g[2]))
+        return out
 
     def wrap_ref_result(self, n, x):
         """a call returning T& is lowered to a function returning T*; the expression denotes *ptr"""
@@ -703,9 +709,10 @@ class Lower:
                 name = self.stubs.get(q + '|' + self.qt(tgt)) or self.stubs.get(q)
         if name is None:
             key = self.member_stub_key(obj, me['name'])
-            name = self.stubs.get(key + '|' + self.qt(me)) or self.stubs.get(key)
+            rkey = key + '->' + self.objtype(n)
+            name = self.stubs.get(key + '|' + self.qt(me)) or self.stubs.get(rkey) or self.stubs.get(key)
             if name is None:
-                raise Abort('member call %s [%s]: neither lowered nor stubbed (in %s, line %s)' % (key, self.qt(me), self.cur_fn, Ast.where(n)[1]))
+                raise Abort('member call %s [%s] (or key %r): neither lowered nor stubbed (in %s, line %s)' % (key, self.qt(me), rkey, self.cur_fn, Ast.where(n)[1]))
         ptypes = self.param_types_from_sig(self.qt(tgt) if tgt else self.qt(me))
         if isinstance(name, dict):
             return self.stub_expand(name, objp, self.args(tgt, ins[1:], ptypes), n)
@@ -903,7 +910,20 @@ class Lower:
         if k == 'WhileStmt':
             ins = self.inner(n)
             lc = self.loopc(ind)
-            c = self.cond(ins[0], 'loop')
+            mark = len(self.pre)
+            c = self.E(ins[0])
+            if len(self.pre) != mark:
+                # the condition contains a call that may throw: while (1) { <call; exception check>; if (!cond) break; body }
+                if mark != 0:
+                    raise Abort('pending pre-statements before a loop in %s' % self.cur_fn)
+                self.loop_depth.append(len(self.scopes))
+                self.scopes.append([])
+                pre = self.flush_pre(ind + 1)
+                b = self.blk(ins[1], ind + 1)
+                self.scopes.pop()
+                self.loop_depth.pop()
+                return ln + pad + 'while (1)\n' + lc + pad + '{\n' + pad + '    VS_REACH(%s);\n' % self.reach_label('loop') + pre + \
+                    pad + '    if (!(%s)) break;\n' % c + b + pad + '}\n'
             self.loop_depth.append(len(self.scopes))
             b = self.blk(ins[1], ind, reach=True)
             self.loop_depth.pop()
@@ -1324,6 +1344,7 @@ class Lower:
         self.rename = {}
         self.hoisted = []
         self.after_decl_used = set()
+        self.ghost_used = set()
         ret, rref, sig = self.signature(d, cname)
         self.cur_ret = ret
         self.ret_is_ref = rref
@@ -1354,6 +1375,9 @@ class Lower:
         if pre or self.hoisted:
             body = '{\n' + ''.join('    ' + h + '\n' for h in self.hoisted) + pre + body[2:]
         self.calls[cname] = self.cur_calls
+        for g in spec.get('ghost', []):
+            if g not in self.ghost_used:
+                raise Abort('ghost anchor: no call to %s found in %s' % (g[0], cname))
         for nm in spec.get('after_decl', {}):
             if nm not in self.after_decl_used:
                 raise Abort('ghost anchor: local %s not found in %s' % (nm, cname))
